@@ -145,8 +145,16 @@ func newSessWorld(dataDir string) (*sessWorld, error) {
 
 type counters struct{ open, total, inb, outb, status int }
 
+// rec renders a reading; values are clamped to what TLC's 32-bit integers can hold (a wrapped
+// unsigned counter becomes 2^31-1).
 func (c counters) rec() map[string]any {
-	return map[string]any{"open": c.open, "total": c.total, "inb": c.inb, "outb": c.outb, "status": c.status}
+	cl := func(v int) int {
+		if v < 0 || v > 1<<31-1 {
+			return 1<<31 - 1
+		}
+		return v
+	}
+	return map[string]any{"open": cl(c.open), "total": cl(c.total), "inb": cl(c.inb), "outb": cl(c.outb), "status": c.status}
 }
 
 func (w *sessWorld) read(id string) (counters, error) {
@@ -161,6 +169,25 @@ func (w *sessWorld) read(id string) (counters, error) {
 	}
 	s := states[0]
 	return counters{int(s.OpenConnections), int(s.TotalConnections), int(s.TotalInboundData), int(s.TotalOutboundData), int(s.Status)}, nil
+}
+
+// stableReading polls List until the statistics have not changed for 1.5 s.
+func (w *sessWorld) stableReading(id string) (counters, bool, error) {
+	start := time.Now()
+	last, lastChange := counters{-1, -1, -1, -1, -1}, time.Now()
+	for time.Since(start) < 15*time.Second {
+		cs, err := w.read(id)
+		if err != nil {
+			return last, false, err
+		}
+		if cs != last {
+			last, lastChange = cs, time.Now()
+		} else if time.Since(lastChange) >= 1500*time.Millisecond {
+			return last, true, nil
+		}
+		time.Sleep(20 * time.Millisecond)
+	}
+	return last, false, nil
 }
 
 func bothClosed(c *connRun) bool { return c.fwd[0].isClosed() && c.fwd[1].isClosed() }
@@ -284,25 +311,9 @@ func (w *sessWorld) runSession(in sessIn) map[string]any {
 	settled := waitClosed(runs, func(i int) bool { return !in.Open[i] })
 
 	// a stable reading: unchanged for 1.5 s (bounded by 15 s)
-	var final counters
-	stable := false
-	{
-		start := time.Now()
-		last, lastChange := counters{-1, -1, -1, -1, -1}, time.Now()
-		for time.Since(start) < 15*time.Second {
-			cs, err := w.read(id)
-			if err != nil {
-				return infra("list: " + err.Error())
-			}
-			if cs != last {
-				last, lastChange = cs, time.Now()
-			} else if time.Since(lastChange) >= 1500*time.Millisecond {
-				stable = true
-				break
-			}
-			time.Sleep(20 * time.Millisecond)
-		}
-		final = last
+	final, stable, err := w.stableReading(id)
+	if err != nil {
+		return infra("list: " + err.Error())
 	}
 	acc, toFirst, toSecond := ledger()
 	stillOpen := 0
@@ -358,6 +369,15 @@ func (w *sessWorld) runSession(in sessIn) map[string]any {
 	if halted {
 		haltClosed = waitClosed(runs, func(i int) bool { return true })
 	}
+	// what the session reports once the forwarding loop that carried the connections is gone
+	// (paused, or replaced after a listener / dial failure)
+	after := map[string]any{}
+	if halted && in.Halt != "terminate" {
+		if cs, st, err := w.stableReading(id); err == nil && st {
+			after = cs.rec()
+		}
+	}
+	rec["afterHalt"] = after
 	rec["halted"] = halted
 	rec["haltErr"] = haltErr
 	rec["haltClosed"] = haltClosed
